@@ -169,6 +169,20 @@ func (s *reaperSys) Check(e Edge, obs []Obs) []Mismatch {
 
 		return ms
 	}
+	// one 5-tuple, at most one allocation: the relay sockets that are open are the live allocation's and nobody else's
+	openSocks := 0
+	s.w.gen.mu.Lock()
+	for _, c := range s.w.gen.Order {
+		select {
+		case <-c.closed:
+		default:
+			openSocks++
+		}
+	}
+	s.w.gen.mu.Unlock()
+	if want := map[bool]int{true: 1, false: 0}[live]; openSocks != want {
+		ms = append(ms, Mismatch{"reaper.sockets", fmt.Sprintf("after %v: %d relay sockets are open for this 5-tuple, %d allocations are live in the specification", canon(e.A), openSocks, want)})
+	}
 	pr := s.w.Project()
 	if pr.C[s.c].Live != live || (pr.Count == 1) != live {
 		ms = append(ms, Mismatch{"reaper.state", fmt.Sprintf("after %v: the specification's allocation (generation %v) is live=%v, the server has %d allocations (this 5-tuple: %v)",
